@@ -5,6 +5,7 @@ import (
 	"fmt"
 	"regexp"
 	"strings"
+	"unicode/utf8"
 
 	"github.com/verily-src/fhirpath-go/fhirpath/internal/expr"
 	"github.com/verily-src/fhirpath-go/fhirpath/system"
@@ -93,7 +94,7 @@ func Length(ctx *expr.Context, input system.Collection, args ...expr.Expression)
 		return nil, fmt.Errorf("%w, received %v arguments, expected 0", ErrWrongArity, length)
 	}
 
-	result := system.Integer(len(fullString))
+	result := system.Integer(utf8.RuneCountInString(fullString))
 	return system.Collection{result}, nil
 }
 
@@ -225,7 +226,9 @@ func Substring(ctx *expr.Context, input system.Collection, args ...expr.Expressi
 	if err != nil {
 		return nil, err
 	}
-	if int(start) >= len(fullString) {
+	// Positions and lengths count characters, not bytes.
+	chars := []rune(fullString)
+	if start < 0 || int(start) >= len(chars) {
 		return system.Collection{}, nil
 	}
 
@@ -245,11 +248,11 @@ func Substring(ctx *expr.Context, input system.Collection, args ...expr.Expressi
 	}
 
 	var result system.String
-	if substringLength > -1 && int(start+substringLength) < len(fullString) {
+	if substringLength > -1 && int(start)+int(substringLength) < len(chars) {
 		// Substring will not go out of bounds
-		result = system.String(fullString[start : start+substringLength])
+		result = system.String(chars[start : int(start)+int(substringLength)])
 	} else {
-		result = system.String(fullString[start:])
+		result = system.String(chars[start:])
 	}
 	return system.Collection{result}, nil
 }
@@ -286,7 +289,11 @@ func IndexOf(ctx *expr.Context, input system.Collection, args ...expr.Expression
 		return nil, err
 	}
 
-	result := system.Integer(strings.Index(fullString, substring))
+	index := strings.Index(fullString, substring)
+	if index > 0 {
+		index = utf8.RuneCountInString(fullString[:index]) // byte offset -> character position
+	}
+	result := system.Integer(index)
 	return system.Collection{result}, nil
 }
 
